@@ -64,6 +64,8 @@ class RustSRPAnalyzer(RustBaseAnalyzer):
             The type identifier name (e.g., "Foo" from "impl Foo {}")
         """
         for child in impl_node.children:
+            if child.type == "generic_type":  # impl<T> Foo<T> { ... }
+                child = child.child_by_field_name("type") or child
             if child.type == "type_identifier":
                 return self.extract_node_text(child)
         return ""
